@@ -351,7 +351,13 @@ pub fn run_c13(tape: &[u8], cx: &Cx) -> Outcome {
         judge_build(&spec, res, "build", &mut o);
     } else {
         o.tag("two-builds");
-        let (first, second) = match spec.build_twice(&extra) {
+        // when the first specification is valid, the first build is sometimes build_unchecked()
+        let strictly_good = !view.values().map(state_facts).any(|f| f.conflict || f.incomplete || f.overlap || f.useless_default);
+        let first_unchecked = strictly_good && t.flag();
+        if first_unchecked {
+            o.tag("first-build-unchecked");
+        }
+        let (first, second) = match spec.build_twice(&extra, first_unchecked) {
             Ok(r) => r,
             Err(msg) => {
                 o.fail("C13/build-panics", format!("build panicked: {}", msg));
@@ -671,4 +677,279 @@ pub fn run_c14(tape: &[u8], cx: &Cx) -> Outcome {
         o.tag("state-without-default");
     }
     o
+}
+
+
+// ---------------------------------------------------------------------------------------------
+// C04 scale cases (enumerated): many states, many alphabet classes
+// ---------------------------------------------------------------------------------------------
+
+/// A "counter modulo n" automaton with every state duplicated: state i (and its clone n+i) goes on
+/// character 2j (j < m) to (i+j+1) mod n — to the clone of the target when j is odd — and stays put on
+/// every other character; state 0 and its clone are final. All 2n states are reachable, the minimal
+/// complete DFA has exactly n states, and a word is accepted iff the sum of (j+1) over its even
+/// characters 2j < 2m is 0 modulo n.
+fn counter_case(n: usize, m: usize) -> Outcome {
+    use aws_smt_strings::automata::AutomatonBuilder;
+    use aws_smt_strings::character_sets::CharSet;
+    let mut o = Outcome::default();
+    let what = format!("counter automaton: {} states (each duplicated), {} labelled characters", n, m);
+    let res = catch(|| {
+        let mut fails: Vec<(String, String)> = Vec::new();
+        let mut b: AutomatonBuilder<u32> = AutomatonBuilder::new(&0);
+        for i in 0..(2 * n) {
+            let real = i % n;
+            for j in 0..m {
+                let t = (real + j + 1) % n;
+                let target = if j % 2 == 1 { n + t } else { t };
+                b.add_transition(&(i as u32), &CharSet::singleton(2 * j as u32), &(target as u32));
+            }
+            b.set_default_successor(&(i as u32), &(i as u32));
+        }
+        b.mark_final(&0);
+        b.mark_final(&(n as u32));
+        let mut a = match b.build() {
+            Ok(a) => a,
+            Err(e) => {
+                fails.push(("C04/good-spec-rejected".into(), format!("{}: build failed: {:?}", what, e)));
+                return fails;
+            }
+        };
+        let accepts_ref = |w: &[u32]| -> bool {
+            let mut sum = 0usize;
+            for &c in w {
+                if c % 2 == 0 && ((c / 2) as usize) < m {
+                    sum += (c / 2) as usize + 1;
+                }
+            }
+            sum % n == 0
+        };
+        // sample words: deterministic, around the interesting characters (first/last labelled, just outside)
+        let interesting: Vec<u32> = vec![0, 1, 2, 2 * (m as u32 - 1), 2 * m as u32, 2 * (m as u32) + 1, (2 * (n - 1)) as u32 % (2 * m as u32), 0x2FFFF, 2 * ((m as u32 - 1) / 2), 2 * (m as u32 * 3 / 4)];
+        let mut words: Vec<Vec<u32>> = vec![vec![]];
+        for &x in &interesting {
+            words.push(vec![x]);
+            for &y in &interesting {
+                words.push(vec![x, y]);
+                words.push(vec![x, 1, y, 0x2FFFF]);
+            }
+        }
+        // words that are accepted: complete a prefix to 0 modulo n where possible
+        for &x in &interesting {
+            if x % 2 == 0 && ((x / 2) as usize) < m {
+                let need = (n - ((x / 2) as usize + 1) % n) % n;
+                if need >= 1 && need <= m {
+                    words.push(vec![x, 2 * (need as u32 - 1)]);
+                }
+            }
+        }
+        let check_lang = |a: &aws_smt_strings::automata::Automaton, stage: &str, fails: &mut Vec<(String, String)>| {
+            for w in &words {
+                let got = a.accepts(&aws_smt_strings::smt_strings::SmtString::from(&w[..]));
+                if got != accepts_ref(w) {
+                    fails.push(("C04/language-changed".into(), format!("{} ({}): accepts({:x?}) = {}, expected {}", what, stage, w, got, accepts_ref(w))));
+                    return;
+                }
+            }
+        };
+        check_lang(&a, "as built", &mut fails);
+        if !fails.is_empty() {
+            fails[0].0 = "C04/source-automaton-wrong".into();
+            return fails;
+        }
+        if a.num_states() != 2 * n {
+            fails.push(("C04/counts-inconsistent".into(), format!("{}: built automaton has {} states", what, a.num_states())));
+        }
+        a.minimize();
+        check_lang(&a, "after minimize", &mut fails);
+        if a.num_states() != n {
+            let class = if a.num_states() < n { "C04/language-changed" } else { "C04/equivalent-states-remain" };
+            fails.push((class.into(), format!("{}: after minimize {} states; the minimal complete DFA has {}", what, a.num_states(), n)));
+        }
+        let nf = a.states().filter(|s| s.is_final()).count();
+        if a.num_final_states() != nf || nf != 1 {
+            fails.push(("C04/counts-inconsistent".into(), format!("{}: after minimize num_final_states = {}, {} states are final (expected 1)", what, a.num_final_states(), nf)));
+        }
+        a.remove_unreachable_states();
+        check_lang(&a, "after minimize and remove_unreachable_states", &mut fails);
+        if a.num_states() != n {
+            fails.push(("C04/language-changed".into(), format!("{}: after minimize and pruning {} states, expected {}", what, a.num_states(), n)));
+        }
+        fails
+    });
+    match res {
+        Ok(fails) => {
+            for (c, m) in fails.into_iter().take(2) {
+                o.fail(&c, m);
+            }
+        }
+        Err(msg) => o.fail("C04/minimize-panics", format!("{}: {}", what, msg)),
+    }
+    o.evals += 1000;
+    o
+}
+
+/// n rejecting sinks (each defaulting to the next one, all equivalent), an initial state that goes to the
+/// first sink on character 0 and to an accepting state — created last, so with the largest id — on
+/// everything else; the accepting state falls into the sinks. Minimal DFA: 3 states, language = one
+/// character other than 0.
+fn sinks_case(n: usize) -> Outcome {
+    use aws_smt_strings::automata::AutomatonBuilder;
+    use aws_smt_strings::character_sets::CharSet;
+    use aws_smt_strings::smt_strings::SmtString;
+    let mut o = Outcome::default();
+    let what = format!("initial state, {} equivalent sinks, accepting state with the largest id", n);
+    let res = catch(|| {
+        let mut fails: Vec<(String, String)> = Vec::new();
+        let mut b: AutomatonBuilder<u32> = AutomatonBuilder::new(&0);
+        for i in 1..=n {
+            let next = if i == n { 1 } else { i + 1 };
+            b.set_default_successor(&(i as u32), &(next as u32));
+        }
+        let acc = (n + 1) as u32;
+        b.add_transition(&0, &CharSet::singleton(0), &1);
+        b.set_default_successor(&0, &acc);
+        b.set_default_successor(&acc, &(n as u32));
+        b.mark_final(&acc);
+        let mut a = match b.build() {
+            Ok(a) => a,
+            Err(e) => {
+                fails.push(("C04/good-spec-rejected".into(), format!("{}: build failed: {:?}", what, e)));
+                return fails;
+            }
+        };
+        let words: Vec<(Vec<u32>, bool)> = vec![(vec![], false), (vec![0], false), (vec![5], true), (vec![0x2FFFF], true), (vec![5, 5], false), (vec![0, 5], false), (vec![1], true), (vec![1, 0], false)];
+        let lang_ok = |a: &aws_smt_strings::automata::Automaton| -> Option<String> {
+            for (w, exp) in &words {
+                if a.accepts(&SmtString::from(&w[..])) != *exp {
+                    return Some(format!("accepts({:x?}) = {}, expected {}", w, !exp, exp));
+                }
+            }
+            None
+        };
+        if let Some(m) = lang_ok(&a) {
+            fails.push(("C04/source-automaton-wrong".into(), format!("{} (as built): {}", what, m)));
+            return fails;
+        }
+        a.minimize();
+        if let Some(m) = lang_ok(&a) {
+            fails.push(("C04/language-changed".into(), format!("{} (after minimize): {}", what, m)));
+        }
+        if a.num_states() != 3 {
+            let class = if a.num_states() < 3 { "C04/language-changed" } else { "C04/equivalent-states-remain" };
+            fails.push((class.into(), format!("{}: after minimize {} states; the minimal complete DFA has 3", what, a.num_states())));
+        }
+        fails
+    });
+    match res {
+        Ok(fails) => {
+            for (c, m) in fails.into_iter().take(2) {
+                o.fail(&c, m);
+            }
+        }
+        Err(msg) => o.fail("C04/minimize-panics", format!("{}: {}", what, msg)),
+    }
+    o.evals += 20;
+    o
+}
+
+/// Two states P and Q that agree on the first m-300 labelled characters (both go to the accepting
+/// state) and differ only on the last 300 (Q goes to the sink there): with m beyond 2^16 they are
+/// distinguished only by alphabet classes of very high index. Minimal DFA: 5 states.
+fn top_classes_case(m: usize) -> Outcome {
+    use aws_smt_strings::automata::AutomatonBuilder;
+    use aws_smt_strings::character_sets::CharSet;
+    use aws_smt_strings::smt_strings::SmtString;
+    let mut o = Outcome::default();
+    let what = format!("two states that differ only on the last 300 of {} labelled characters", m);
+    let res = catch(|| {
+        let mut fails: Vec<(String, String)> = Vec::new();
+        let (init, p, q, acc, sink) = (0u32, 1u32, 2u32, 3u32, 4u32);
+        let mut b: AutomatonBuilder<u32> = AutomatonBuilder::new(&init);
+        b.add_transition(&init, &CharSet::singleton(0), &p);
+        b.add_transition(&init, &CharSet::singleton(2), &q);
+        b.set_default_successor(&init, &sink);
+        for j in 0..m {
+            b.add_transition(&p, &CharSet::singleton(2 * j as u32), &acc);
+            if j + 300 < m {
+                b.add_transition(&q, &CharSet::singleton(2 * j as u32), &acc);
+            }
+        }
+        b.set_default_successor(&p, &sink);
+        b.set_default_successor(&q, &sink);
+        b.set_default_successor(&acc, &sink);
+        b.set_default_successor(&sink, &sink);
+        b.mark_final(&acc);
+        let mut a = match b.build() {
+            Ok(a) => a,
+            Err(e) => {
+                fails.push(("C04/good-spec-rejected".into(), format!("{}: build failed: {:?}", what, e)));
+                return fails;
+            }
+        };
+        let top = 2 * (m as u32 - 1);
+        let low = 2 * (m as u32 - 301);
+        let words: Vec<(Vec<u32>, bool)> = vec![(vec![0, top], true), (vec![2, top], false), (vec![2, low], true), (vec![0, low], true), (vec![0, top + 2], false), (vec![0], false), (vec![2, top - 2], false), (vec![0, 1], false)];
+        let lang_ok = |a: &aws_smt_strings::automata::Automaton| -> Option<String> {
+            for (w, exp) in &words {
+                if a.accepts(&SmtString::from(&w[..])) != *exp {
+                    return Some(format!("accepts({:x?}) = {}, expected {}", w, !exp, exp));
+                }
+            }
+            None
+        };
+        if let Some(msg) = lang_ok(&a) {
+            fails.push(("C04/source-automaton-wrong".into(), format!("{} (as built): {}", what, msg)));
+            return fails;
+        }
+        a.minimize();
+        if let Some(msg) = lang_ok(&a) {
+            fails.push(("C04/language-changed".into(), format!("{} (after minimize): {}", what, msg)));
+        }
+        if a.num_states() != 5 {
+            let class = if a.num_states() < 5 { "C04/language-changed" } else { "C04/equivalent-states-remain" };
+            fails.push((class.into(), format!("{}: after minimize {} states; the minimal complete DFA has 5", what, a.num_states())));
+        }
+        fails
+    });
+    match res {
+        Ok(fails) => {
+            for (c, msg) in fails.into_iter().take(2) {
+                o.fail(&c, msg);
+            }
+        }
+        Err(msg) => o.fail("C04/minimize-panics", format!("{}: {}", what, msg)),
+    }
+    o.evals += 20;
+    o
+}
+
+pub fn enumerate_c04(_thorough: bool, part: usize, parts: usize, sink: &mut crate::runner::EnumSink) {
+    for (k, &m) in [400usize, 66000].iter().enumerate() {
+        if (k + 2) % parts != part {
+            continue;
+        }
+        let o = top_classes_case(m);
+        sink.case(&o, true, || format!("scale case: two states that differ only on the last 300 of {} labelled characters", m));
+    }
+    for (k, &n) in [3usize, 300, 66000].iter().enumerate() {
+        if (k + 1) % parts != part {
+            continue;
+        }
+        let o = sinks_case(n);
+        sink.case(&o, true, || format!("scale case: {} equivalent sinks, accepting state with the largest id", n));
+    }
+    // (states, labelled characters): small, beyond 2^8 in either dimension, beyond 2^16 labelled characters
+    let cases: [(usize, usize); 5] = [(3, 2), (7, 5), (300, 4), (5, 300), (4, 66000)];
+    for (k, &(n, m)) in cases.iter().enumerate() {
+        if k % parts != part {
+            continue;
+        }
+        let o = counter_case(n, m);
+        sink.case(&o, true, || format!("scale case: counter automaton modulo {} with {} labelled characters, every state duplicated", n, m));
+    }
+    if part == 0 {
+        sink.stats.exhaustive_spaces.push("10 scale cases: two states differing only on the last 300 of 400 / 66000 labelled characters; counter automata modulo n with m labelled characters and every state duplicated, (n,m) in (3,2) (7,5) (300,4) (5,300) (4,66000), and automata with 3 / 300 / 66000 equivalent sinks and the accepting state at the largest id: built, minimised, pruned; state counts against the known Myhill-Nerode index and the language on fixed word lists".to_string());
+        sink.stats.samples.push("[enum] scale case: counter automaton modulo 4 with 66000 labelled characters; 66000 equivalent sinks + accepting state with id 66001".to_string());
+    }
 }
